@@ -32,7 +32,7 @@ for pid in sys.argv[1:]:
     for ch in sorted((wt / '_seed').glob('change*')):
         meta = json.loads((ch / 'meta.json').read_text())
         cmd = meta['demo_cmd']
-        for cut in (' ; echo exit', '   (', ' (then', ' ; pkill', ';pkill'):
+        for cut in (' ; echo exit', '   (', ' (then', ' ; pkill', ';pkill', ' ; then', '; then'):
             if cut in cmd:
                 cmd = cmd[:cmd.index(cut)]
         (wt / '_tmp').mkdir(exist_ok=True)
